@@ -43,6 +43,12 @@ import (
 	timeutil "github.com/furiko-io/furiko/pkg/utils/time"
 )
 
+const (
+	// taskNotInCacheResyncInterval is the interval to sync a Job again while one
+	// of its tasks is known from the apiserver but not (yet) from the cache.
+	taskNotInCacheResyncInterval = time.Second * 5
+)
+
 type Reconciler struct {
 	*Context
 	client      *ExecutionControl
@@ -188,7 +194,7 @@ func (w *Reconciler) syncJobTasks(
 	// NOTE(irvinlim): Avoid using List() which performs a complete linear search.
 	tasks := make([]jobtasks.Task, 0, len(rj.Status.Tasks))
 	for _, ref := range rj.Status.Tasks {
-		task, err := w.getTask(ctx, taskMgr, ref)
+		task, err := w.getTask(ctx, rj, taskMgr, ref)
 		if err != nil {
 			return rj, errors.Wrapf(err, "cannot get task %v", ref.Name)
 		}
@@ -278,8 +284,13 @@ func hasUnrecordedTasks(rj *execution.Job, tasks []jobtasks.Task) bool {
 // looked up from the apiserver before concluding that it no longer exists,
 // otherwise a task that was just created (or adopted) may be recorded as lost and
 // be replaced by another task while it is still alive.
+//
+// As long as a task is only known from the apiserver, no event is guaranteed to
+// be received for it (if the watch is re-established in the meantime, a task that
+// was deleted is never seen by the cache at all), so the Job is synced again
+// after a while instead of waiting for an event.
 func (w *Reconciler) getTask(
-	ctx context.Context, taskMgr jobtasks.Executor, ref execution.TaskRef,
+	ctx context.Context, rj *execution.Job, taskMgr jobtasks.Executor, ref execution.TaskRef,
 ) (jobtasks.Task, error) {
 	task, err := taskMgr.Lister().Get(ref.Name)
 	if err == nil {
@@ -298,6 +309,7 @@ func (w *Reconciler) getTask(
 	if err != nil {
 		return nil, err
 	}
+	w.enqueueAfter(rj, "task_not_in_cache", taskNotInCacheResyncInterval)
 	return task, nil
 }
 
@@ -909,7 +921,7 @@ func (w *Reconciler) handleFinishFinalizer(
 	// Use CreatedTaskRefs as they are guaranteed to contain all tasks that have been created by this Job.
 	tasks := make([]jobtasks.Task, 0, len(rj.Status.Tasks))
 	for _, taskRef := range rj.Status.Tasks {
-		task, err := w.getTask(ctx, taskMgr, taskRef)
+		task, err := w.getTask(ctx, rj, taskMgr, taskRef)
 		if err != nil {
 			return rj, errors.Wrapf(err, "cannot get task %v", taskRef.Name)
 		}
